@@ -4,4 +4,4 @@
 From GM Require Import Codec AsmCodec SpecCodec ApiSpec Monitors.
 From Coq Require Import ExtrOcamlBasic.
 Extraction Language OCaml.
-Extraction "model.ml" run_case5 spec_case2 mon_case_all Z.add Z.mul Z.div_eucl Z.opp.
+Extraction "model.ml" run_case6 spec_case2 mon_case_all Z.add Z.mul Z.div_eucl Z.opp.
